@@ -770,6 +770,39 @@ fn check_invocation(
                         }
                     }
                 }
+                // the manifest on disk was regenerated but n2 kept judging against the old text:
+                // C02 speaks about the current manifest and command lines
+                if !any_fail && !bogus && !cyc_final && !injected && !spec.restat && sh.model.disk != p2 {
+                    let pd = sh.model.disk.clone();
+                    let ment = pd.mentioned();
+                    let tg: Vec<String> = if !ctargets.is_empty() {
+                        ctargets.iter().filter(|t| ment.contains(*t) && **t != pd.manifest).cloned().collect()
+                    } else if !pd.defaults.is_empty() {
+                        pd.defaults.clone()
+                    } else {
+                        ment.iter().filter(|f| **f != pd.manifest).cloned().collect()
+                    };
+                    let wd = pd.closure(&tg);
+                    if !pd.has_cycle_in(&wd) {
+                        let mut memo = HashMap::new();
+                        for &si in &wd {
+                            let s = &pd.steps[si];
+                            if s.phony || s.generator {
+                                continue;
+                            }
+                            for o in &s.outs {
+                                if sh.model.content_unknown || sh.model.depends_on_taint(&pd, o, &mut BTreeSet::new()) {
+                                    continue;
+                                }
+                                let want = pd.clean(o, &mut memo);
+                                let got = disk::read_str(o).unwrap_or_else(|| "MISSING".into());
+                                if want != got && want != "UNBUILDABLE" {
+                                    v.push(viol("C02", "stale-vs-current-manifest", format!("{} (output of s{}) is not what the manifest now on disk (regenerated during this invocation) would produce", o, s.id)));
+                                }
+                            }
+                        }
+                    }
+                }
                 let n = ok_total;
                 let want_line = if n == 0 {
                     "n2: no work to do\n".to_string()
